@@ -22,7 +22,9 @@ CONSTANTS Tok,       \* token alphabet of the full enumeration
           LenRed,    \* ... enumerated up to this (larger) length
           LenUri,    \* URI cases: rest sequences over TokRed up to this length
           LenName,   \* name graph: conversion paths up to this length (4 plain key classes)
-          LenNameW   \* ... and up to this length for EVERY binary key class
+          LenNameW,  \* ... and up to this length for EVERY binary key class
+          LenSess,   \* value sessions: on every accepted path over TokRed up to this length ...
+          LenOps     \* ... all call sequences (accessors + Scribble) up to this length
 
 (* ------------------------------------------------------------------ token classes -- *)
 NoCid == <<"none", 0>>
@@ -209,18 +211,76 @@ RECURSIVE Walk(_, _)
 Walk(es, b) == IF es = <<>> THEN [ok |-> TRUE, mh |-> b]
                ELSE LET r == Via(Head(es), b) IN IF r.ok THEN Walk(Tail(es), r.mh) ELSE r
 
+(* ------------------------------------------------------------------ value sessions -- *)
+(* A parsed path and an IPNS name are VALUES.  A session creates one value and then calls its
+   accessors / derives other values from it.  Some calls hand the caller a slice: the RESULT of
+   Segments() / RoutingKey() / MarshalJSON(), or leave him with the ARGUMENT buffer he passed to
+   Join / NewPathFromSegments / NameFromRoutingKey / UnmarshalJSON.  Those slices belong to the
+   caller, who may overwrite them:  Scribble(i) = the caller assigns to every index of the slice
+   of call i and appends into a re-slice of it.  The model state of a session is the value alone
+   and Scribble does not touch it: every accessor -- on the value, on every copy of it taken
+   before or after, and on every value derived earlier -- keeps giving the result below.       *)
+PathOps  == {"Segments",   \* p.Segments()                      (yields the returned slice)
+             "String",     \* p.String()
+             "Reparse",    \* NewPath(p.String())
+             "Join",       \* Join(p, "a")                      (yields the argument slice)
+             "FromSegs",   \* NewPathFromSegments(segments of p) (yields the argument slice)
+             "Immutable"}  \* NewImmutablePath(p)
+NameOps  == {"RoutingKey", \* n.RoutingKey()                    (yields the returned bytes)
+             "JSON",       \* n.MarshalJSON()                   (yields the returned bytes)
+             "FromRK",     \* NameFromRoutingKey(buf)           (yields the argument buffer)
+             "FromJSON",   \* UnmarshalJSON(buf)                (yields the argument buffer)
+             "Peer",       \* n.Peer()
+             "Text"}       \* n.String()
+Yielding == {"Segments", "Join", "FromSegs", "RoutingKey", "JSON", "FromRK", "FromJSON"}
+
+PathResult(op, p) ==
+  CASE op = "Segments"  -> p.segs
+    [] op = "String"    -> Printed(p)
+    [] op = "Reparse"   -> Parse(Printed(p))
+    [] op = "Join"      -> Parse(<<"e">> \o p.segs \o <<"a">>)
+    [] op = "FromSegs"  -> Parse(<<"e">> \o p.segs)
+    [] op = "Immutable" -> [ok |-> ~p.mut, cid |-> p.cid]
+NameResult(op, b) ==
+  CASE op = "RoutingKey" -> RoutingKeyOf(b)
+    [] op = "JSON"       -> ToText("JSON", b)
+    [] op = "FromRK"     -> FromRoutingKey(RoutingKeyOf(b))
+    [] op = "FromJSON"   -> FromText(ToText("JSON", b))
+    [] op = "Peer"       -> b
+    [] op = "Text"       -> ToText("String", b)
+
+\* a call is [op, of]: of = 0, or for Scribble the index of the earlier call whose slice is overwritten
+Call(o) == [op |-> o, of |-> 0]
+Scribbled(ops) == {ops[j].of : j \in {i \in 1..Len(ops) : ops[i].op = "Scribble"}}
+OpenSlices(ops) == {i \in 1..Len(ops) : ops[i].op \in Yielding /\ i \notin Scribbled(ops)}
+\* a session starts by obtaining something that can be scribbled on (pure reads are the "p" family)
+NextCalls(A, ops) == {Call(o) : o \in (IF ops = <<>> THEN A \cap Yielding ELSE A)}
+                       \cup {[op |-> "Scribble", of |-> i] : i \in OpenSlices(ops)}
+\* the enumerated sessions (phases M, G) do not grow read-only prefixes beyond two calls: the third and later
+\* calls of a session that has not scribbled yet are Scribble steps (phase T sessions are not restricted)
+EnumCalls(A, ops) == {o \in NextCalls(A, ops) : o.op = "Scribble" \/ Len(ops) < 2 \/ Scribbled(ops) # {}}
+\* one step of a session; st = [val, res].  No step changes st.val; Scribble does not even read it.
+SStep(fam, o, st) ==
+  IF o.op = "Scribble" THEN [st EXCEPT !.res = Append(@, "none")]
+  ELSE [st EXCEPT !.res = Append(@, IF fam = "v" THEN PathResult(o.op, st.val) ELSE NameResult(o.op, st.val))]
+RECURSIVE SRun(_, _, _)
+SRun(fam, ops, st) == IF ops = <<>> THEN st ELSE SRun(fam, Tail(ops), SStep(fam, Head(ops), st))
+
 (* ------------------------------------------------------------------ case space ----- *)
 (* A case is grown token by token (every prefix is itself a case), so TLC's breadth-first
    search enumerates ALL token sequences up to the bound of the family:
      "p"/full : sequences over Tok    up to LenFull      "p"/red : over TokRed up to LenRed
      "u"      : scheme x separator x rest over TokRed up to LenUri
      "n"      : binary key class x conversion path over Edges up to LenName (plain classes) / LenNameW (all)
-     "x"      : rejected forms        ("b" : phase T only, a concrete binary key)              *)
+     "x"      : rejected forms        ("b" : phase T only, a concrete binary key)
+     "v"      : value session on an accepted path (over TokRed, up to LenSess) x calls up to LenOps
+     "w"      : value session on the name of a plain key class x calls up to LenOps                *)
 VARIABLE c
 Init == \/ c \in [k : {"p"}, a : {"full", "red"}, t : {<<>>}]
         \/ c \in [k : {"u"}, sch : Schemes, sep : Seps, t : {<<>>}]
         \/ c \in [k : {"n"}, key : KeyClasses, es : {<<>>}]
         \/ c \in [k : {"x"}, key : Keys, form : BadForms]
+        \/ c \in [k : {"w"}, key : {kc \in KeyClasses : Plain(kc)}, ops : {<<>>}]
 Next == \/ /\ c.k = "p" /\ c.a = "full" /\ Len(c.t) < LenFull
            /\ \E x \in Tok : c' = [c EXCEPT !.t = Append(@, x)]
         \/ /\ c.k = "p" /\ c.a = "red" /\ Len(c.t) < LenRed
@@ -229,6 +289,12 @@ Next == \/ /\ c.k = "p" /\ c.a = "full" /\ Len(c.t) < LenFull
            /\ \E x \in TokRed : c' = [c EXCEPT !.t = Append(@, x)]
         \/ /\ c.k = "n" /\ Len(c.es) < (IF Plain(c.key) THEN LenName ELSE LenNameW)
            /\ \E x \in EdgesFor(c.key) : c' = [c EXCEPT !.es = Append(@, x)]
+        \/ /\ c.k = "p" /\ c.a = "red" /\ Len(c.t) <= LenSess /\ Parse(c.t).ok
+           /\ c' = [k |-> "v", t |-> c.t, ops |-> <<>>]
+        \/ /\ c.k = "v" /\ Len(c.ops) < LenOps
+           /\ \E o \in EnumCalls(PathOps, c.ops) : c' = [c EXCEPT !.ops = Append(@, o)]
+        \/ /\ c.k = "w" /\ Len(c.ops) < LenOps
+           /\ \E o \in EnumCalls(NameOps, c.ops) : c' = [c EXCEPT !.ops = Append(@, o)]
 Spec == Init /\ [][Next]_c
 
 \* what the real code must show for case c
@@ -237,9 +303,13 @@ Expect ==
     [] c.k = "u" -> [k |-> "u", sch |-> c.sch, sep |-> c.sep, t |-> c.t, p |-> ParseURI(c.sch, c.t)]
     [] c.k = "n" -> [k |-> "n", key |-> c.key, es |-> c.es, same |-> Walk(c.es, Rep(c.key)) = [ok |-> TRUE, mh |-> Rep(c.key)]]
     [] c.k = "x" -> [k |-> "x", key |-> c.key, form |-> c.form, ok |-> FALSE]
+    [] c.k = "v" -> [k |-> "v", t |-> c.t, p |-> Parse(c.t), ops |-> c.ops,
+                     res |-> SRun("v", c.ops, [val |-> Parse(c.t), res |-> <<>>]).res]
+    [] c.k = "w" -> [k |-> "w", key |-> c.key, mh |-> Rep(c.key), ops |-> c.ops,
+                     res |-> SRun("w", c.ops, [val |-> Rep(c.key), res |-> <<>>]).res]
 
 (* ------------------------------------------------------------------ the property --- *)
-P == IF c.k = "p" THEN Parse(c.t) ELSE IF c.k = "u" THEN ParseURI(c.sch, c.t) ELSE Reject("n/a")
+P == IF c.k \in {"p", "v"} THEN Parse(c.t) ELSE IF c.k = "u" THEN ParseURI(c.sch, c.t) ELSE Reject("n/a")
 Idempotent  == P.ok => Parse(Printed(P)) = P
 NoDots      == P.ok => \A i \in 1..Len(P.segs) : P.segs[i] \notin {"e", "dot", "dd"}
 PrintedIsCanonical == P.ok => /\ Segments(Printed(P)) = P.segs
@@ -251,7 +321,7 @@ UriEqualsPath == c.k = "u" /\ SchemeNs(c.sch) # "" =>
                    ParseURI(c.sch, c.t) = Parse(<<"e", SchemeNs(c.sch)>> \o c.t)
 NameRoundTrip == c.k = "n" => Walk(c.es, Rep(c.key)) = [ok |-> TRUE, mh |-> Rep(c.key)]
 \* binary laws; b = the model's representative (phases M, G) or the concrete bytes of a real key (phase T)
-KeyBytes == IF c.k = "n" THEN Rep(c.key) ELSE c.mh
+KeyBytes == IF c.k \in {"n", "w"} THEN Rep(c.key) ELSE c.mh
 BinaryLaws == (c.k = "n" /\ c.es = <<>>) \/ c.k = "b" =>
   LET b == KeyBytes IN
   /\ InClass(b, c.key) /\ MhFramed(b)
@@ -260,6 +330,30 @@ BinaryLaws == (c.k = "n" /\ c.es = <<>>) \/ c.k = "b" =>
         /\ (r.ok => RoutingKeyOf(r.mh) = d)                              \* exact inverse: no second spelling
         /\ (v \in {"plusSlash", "minusLast", "pk", "upper"} => ~r.ok)
 \* a trailing "/" is kept exactly when the input ended with one (documented for NewPath)
-TrailingSlashKept == c.k = "p" /\ P.ok => (P.tr <=> EndsInSlash(c.t))
+TrailingSlashKept == c.k \in {"p", "v"} /\ P.ok => (P.tr <=> EndsInSlash(c.t))
+\* value semantics: whatever was called before -- Scribble included -- the session's value is the one it
+\* was created with and every call returns what it returns on that value; Scribble targets are real slices
+SessVal == IF c.k = "v" THEN Parse(c.t) ELSE KeyBytes
+ValueSemantics == c.k \in {"v", "w", "b"} =>
+  LET v0 == SessVal  fam == IF c.k = "v" THEN "v" ELSE "w"
+      run == SRun(fam, c.ops, [val |-> v0, res |-> <<>>]) IN
+  /\ run.val = v0 /\ Len(run.res) = Len(c.ops)
+  /\ \A i \in 1..Len(c.ops) :
+        IF c.ops[i].op = "Scribble"
+        THEN c.ops[i].of \in 1..(i - 1) /\ c.ops[c.ops[i].of].op \in Yielding /\ run.res[i] = "none"
+        ELSE c.ops[i].of = 0 /\ run.res[i] = (IF fam = "v" THEN PathResult(c.ops[i].op, v0) ELSE NameResult(c.ops[i].op, v0))
+\* what the derived values are, in terms of the value they were derived from
+DerivedLaws == c.k = "v" =>
+  LET p == Parse(c.t)  j == PathResult("Join", p) IN
+  /\ p.ok /\ PathResult("Reparse", p) = p
+  /\ Segments(PathResult("String", p)) = p.segs /\ PathResult("Segments", p) = p.segs
+  /\ PathResult("FromSegs", p) = [p EXCEPT !.tr = FALSE]
+  /\ j = [p EXCEPT !.tr = FALSE, !.segs = Append(p.segs, "a")]
+  /\ PathResult("Immutable", p).ok = (p.cid # NoCid)
+NameValueLaws == c.k \in {"w", "b"} =>
+  LET b == KeyBytes IN
+  /\ NameResult("FromRK", b) = [ok |-> TRUE, mh |-> b] /\ NameResult("FromJSON", b) = [ok |-> TRUE, mh |-> b]
+  /\ NameResult("Peer", b) = b /\ NameResult("RoutingKey", b) = Prefix \o b
+  /\ NameResult("JSON", b).of = b /\ NameResult("Text", b).of = b
 
 =============================================================================
